@@ -1132,7 +1132,12 @@ func (s *IPSets) writeUpdates(setName string, w io.Writer, listener UpdateListen
 	if needCreate || needTempIPSet {
 		if needTempIPSet {
 			// After the swap, the temp IP set has the _old_ dataplane metadata.
-			s.setNameToProgrammedMetadata.Dataplane().Set(tempSet, dpMeta)
+			// No deletion of the temp IP set has been attempted yet, so it must not
+			// inherit the main IP set's DeleteFailed flag (which would make
+			// ApplyDeletions skip it until the resync after next).
+			tempMeta := dpMeta
+			tempMeta.DeleteFailed = false
+			s.setNameToProgrammedMetadata.Dataplane().Set(tempSet, tempMeta)
 		}
 		// The main IP set now has the correct metadata.
 		s.setNameToProgrammedMetadata.Dataplane().Set(setName, desiredMeta)
